@@ -34,7 +34,12 @@ DICT_CONTAINERS = ("list", "tuple", "gen", "iter")  # dictionaries= is consumed 
 MAIN = "main"
 DERIVE_EAGER = ("slice", "head", "tail", "query", "distinct", "add", "batch")
 DERIVE_LAZY = ("select", "filter", "take")
-BAD_APPENDS = ("scalar", "unsizable", "invalid")
+# appends that are rejected (append raises, no row is added): a record that is not a mapping / tuple, a value that cannot
+# be sized (beyond 64 bits), a record over the 16 MiB a row may take; and for a RelationSchema: a value of the wrong type,
+# a missing column, an excess column, a null in a non-nullable column
+BAD_APPENDS = ("scalar", "unsizable", "invalid", "missing", "excess", "null", "oversize")
+BAD_NEEDS_REL = ("invalid", "missing", "excess", "null")
+_OVERSIZE = "x" * (17 * 2 ** 20)
 FETCHES = ("fetchone", "fetchmany", "fetchall")
 
 
@@ -367,13 +372,10 @@ def build(case):
     if k == "tuple-schema":
         return DataFrame(rows=_container(rows, cont), schema=tuple(names))
     if k == "relation":
-        from orso.schema import FlatColumn, RelationSchema
-        from orso.types import OrsoTypes
-
-        sch = RelationSchema(name="t", columns=[FlatColumn(name=n, type=OrsoTypes.INTEGER) for n in names])
-        return DataFrame(rows=_container(rows, cont), schema=sch)
+        return DataFrame(rows=_container(rows, cont), schema=_relation(names, src.get("nonnull")))
     if k in ONESHOT_KINDS:
-        return DataFrame(rows=_oneshot(rows, k), schema=list(names))
+        # a generator of rows under a RelationSchema (`rel`): append validates the record before anything is stored
+        return DataFrame(rows=_oneshot(rows, k), schema=_relation(names, src.get("nonnull")) if src.get("rel") else list(names))
     if k == "arrow":
         tabs = [_arrow_table(t, w) for t in src["tables"]]
         how = src.get("how", "list")
@@ -395,6 +397,19 @@ def build(case):
     if k == "take":
         return parent.take(list(src["indexes"]))
     raise InfraError("bad source kind %r" % (k,))
+
+
+def _relation(names, nonnull=False):
+    from orso.schema import FlatColumn, RelationSchema
+    from orso.types import OrsoTypes
+
+    return RelationSchema(name="t", columns=[FlatColumn(name=n, type=OrsoTypes.INTEGER, nullable=not (nonnull and i == 0))
+                                             for i, n in enumerate(names)])
+
+
+def src_rel(src):
+    """Does the frame under test validate appended records against a RelationSchema?"""
+    return src["kind"] in ("relation", "arrow") or (src["kind"] in ONESHOT_KINDS and bool(src.get("rel")))
 
 
 def reference_rows(ctx, case):
@@ -526,7 +541,48 @@ def _bad_entry(kind, width, rel):
         return dict(zip(names, vals)) if rel else tuple(vals)
     if kind == "invalid":   # not an INTEGER
         return dict(zip(names, ["x"] + [0] * (width - 1)))
+    if kind == "missing":   # the last column is not there
+        return dict(zip(names[:-1], [0] * (width - 1)))
+    if kind == "excess":    # a column the schema does not have
+        return dict(list(zip(names, [0] * width)) + [("zz", 0)])
+    if kind == "null":      # None in the non-nullable first column
+        return dict(zip(names, [None] + [0] * (width - 1)))
+    if kind == "oversize":  # a record over the 16 MiB a row may take (Row.nbytes raises)
+        vals = [_OVERSIZE] + [0] * (width - 1)
+        return dict(zip(names, vals)) if rel else tuple(vals)
     raise InfraError("bad append kind %r" % (kind,))
+
+
+_POINTS = []
+
+
+def append_points():
+    """`DataFrame.append` statement by statement, as the extractor reads the working tree (None when it cannot)."""
+    if not _POINTS:
+        try:
+            from ..extract import Src
+            from ..extractors.c04 import append_points as extract_points
+
+            _POINTS.append(extract_points(Src("orso/dataframe.py"))[0])
+        except Exception:
+            _POINTS.append(None)
+    return _POINTS[0]
+
+
+def _reject_stage(e):
+    """The statement of `append` an exception came out of: its index in the extractor's table (None: not known)."""
+    points = append_points()
+    if points is None:
+        return None
+    from ..extractors.c04 import append_point_of_line
+
+    tb, line = e.__traceback__, None
+    while tb is not None:
+        code = tb.tb_frame.f_code
+        if code.co_name == "append" and code.co_filename.replace("\\", "/").endswith("orso/dataframe.py"):
+            line = tb.tb_lineno
+        tb = tb.tb_next
+    return None if line is None else append_point_of_line(points, line)
 
 
 def _stored(df):
@@ -574,7 +630,7 @@ def run_impl(case):
         # is not this property's business: the history is not run
         return [["unbuildable", type(e).__name__]], {}
     lazy = {MAIN: is_lazy(case)}
-    rel = case["src"]["kind"] == "relation"
+    from orso.schema import RelationSchema
     w = case["width"]
     names = NAMES[:w]
     outs = []
@@ -585,6 +641,8 @@ def run_impl(case):
         if df is None:  # a register whose derivation raised: reported there
             outs.append(["skipped"])
             continue
+        rel = isinstance(df._schema, RelationSchema)
+        was_list = isinstance(df._rows, list)
         try:
             if k == "fetchone":
                 r = df.fetchone()
@@ -631,7 +689,8 @@ def run_impl(case):
             else:
                 if k == "derive":
                     frames[bop[1]] = None
-                outs.append(["raised", type(e).__name__, {"observe": lambda: obs.get(bop[1])[0], "derive": lambda: "derive:" + bop[3]}.get(k, lambda: k)()])
+                outs.append(["raised", type(e).__name__, {"observe": lambda: obs.get(bop[1])[0], "derive": lambda: "derive:" + bop[3]}.get(k, lambda: k)()]
+                            + ([_reject_stage(e), was_list] if k == "append-bad" else []))
     finals = {}
     for name, df in frames.items():
         finals[name] = None if (df is None or lazy[name]) else _stored(df)
@@ -652,6 +711,8 @@ class Reg:
         self.failed_append = False  # an append raised: no row was appended, a refusal afterwards is tolerated
         self.loose = False          # …and happened: the model (which does not refuse) is not compared any more
         self.frozen = False         # a lazy view whose parent was appended to: what it holds is not defined
+        self.fetched = False        # a fetch call has been made
+        self.notes = []             # where in the history the rejected appends fell (input distribution)
 
     def current(self):
         return self.rows + self.extra
@@ -696,6 +757,14 @@ def judge(case, outs, finals):
         elif k == "append-bad":
             if out[0] == "raised":
                 st.failed_append = True
+                stage, was_list = (out[3], out[4]) if len(out) > 4 else (None, True)
+                if stage is None or (not st.lazy and not was_list):
+                    # the model cannot follow this one: the statement that raised is not in the extractor's table, or the
+                    # rows of a materialised frame are held in something that is not a list (append turns it into one and
+                    # drops the cursor: the frame refuses from here on, which the statement allows)
+                    st.loose = True
+                where = "before-first-fetch" if not st.fetched else ("after-exhaustion" if len(st.delivered) >= len(st.rows) else "between-fetches")
+                st.notes.append("append-rejected:%s:%s:%s" % ("lazy" if st.lazy else "eager", bop[1], where))
             else:  # this tree accepts the entry: an append like any other, of a row this harness does not predict
                 st.appended = True
                 st.unknown_rows = True
@@ -714,6 +783,7 @@ def judge(case, outs, finals):
                     c.frozen = True
         if k not in FETCHES or clause is not None:
             continue
+        st.fetched = True
         remaining = len(st.rows) - len(st.delivered)
         if st.appended:
             if out[0] != "err":
@@ -721,8 +791,9 @@ def judge(case, outs, finals):
             continue
         if out[0] == "err":
             if st.failed_append:
+                # a refusal after a rejected append is always safe (the model says whether this tree does refuse)
                 st.appended = True
-                st.loose = True
+                st.notes.append("append-rejected:then-the-frame-refuses")
                 continue
             clause = say("fetch raised without an append", st)
             continue
@@ -757,11 +828,16 @@ def oracle(case, outs, finals):
     return judge(case, outs, finals)[0]
 
 
-def _model_op(bop):
+def _model_op(bop, out=None, width=1):
     if bop[0] == "observe":
         return ["observe", observers().get(bop[1])[2]]
     if bop[0] == "append-bad":
-        return ["observe", "rows"]  # no row is appended: for the frame it is a look at the rows
+        if out is not None and out[0] == "raised" and len(out) > 4 and out[3] is not None:
+            # left by an exception at statement `stage` of append: the model takes what has happened to the frame by
+            # then from the source (Gen.Cursor.appendPoints)
+            row = [] if bop[1] == "scalar" else [{"unsizable": 2 ** 70, "invalid": "x", "null": None, "oversize": "oversize"}.get(bop[1], 0)] + [0] * (width - 1)
+            return ["reject", out[3], row]
+        return ["observe", "pure"]  # not followed by the model (the register is loose)
     return list(bop)
 
 
@@ -769,7 +845,7 @@ def _model_frame(case):
     rows, tables, size = layout(case)
     k = case["src"]["kind"]
     if is_lazy(case):
-        return ["lazy", tables, size, k == "arrow"]
+        return ["lazy", tables, size, src_rel(case["src"])]
     return ["eager", rows, k == "dicts", k == "relation"]
 
 
@@ -777,14 +853,16 @@ def has_registers(case):
     return any(op[0] in ("derive", "on") for op in case["ops"])
 
 
-def model_line(case, order=None):
+def model_line(case, order=None, outs=None):
     d = case.get("arraysize0", 100)
+    outs = outs if outs is not None and len(outs) == len(case["ops"]) else [None] * len(case["ops"])
+    w = case["width"]
     if not has_registers(case):
-        return "C04 frame " + wire.line(d, _model_frame(case), [_model_op(op) for op in case["ops"]])
+        return "C04 frame " + wire.line(d, _model_frame(case), [_model_op(op, o, w) for op, o in zip(case["ops"], outs)])
     idx = {r.name: r.idx for r in order}
     rows_of = {r.name: r.rows for r in order}
     ops = []
-    for op in case["ops"]:
+    for op, o in zip(case["ops"], outs):
         reg, bop = target(op)
         if reg not in idx:
             raise InfraError("operation on an unknown frame in %r" % (case,))
@@ -797,7 +875,7 @@ def model_line(case, order=None):
             else:
                 ops.append(["derive", idx[reg], "batches" if how == "batch" else how, rows_of[name]])
         else:
-            ops.append(["on", idx[reg], _model_op(bop)])
+            ops.append(["on", idx[reg], _model_op(bop, o, w)])
     return "C04 system " + wire.line(d, _model_frame(case), ops)
 
 
@@ -840,16 +918,17 @@ def _valid_derive(bop, regs, w):
     return False
 
 
-def _valid_base(bop, lazy, w, rel):
+def _valid_base(bop, lazy, w, rel, nonnull=False):
     obs = observers()
     if not isinstance(bop, list) or not bop:
         return False
     k = bop[0]
     if k == "append":
-        return not lazy and len(bop) == 2 and isinstance(bop[1], list) and len(bop[1]) == w
+        # on a lazily backed frame too: "once a row has been appended the fetch calls refuse" is said of every frame
+        return len(bop) == 2 and isinstance(bop[1], list) and len(bop[1]) == w and (not rel or all(_int(v) for v in bop[1]))
     if k == "append-bad":
-        return (not lazy and len(bop) == 2 and bop[1] in BAD_APPENDS and (bop[1] == "scalar" or w >= 1)
-                and (bop[1] != "invalid" or rel))
+        return (len(bop) == 2 and bop[1] in BAD_APPENDS and (bop[1] == "scalar" or w >= 1)
+                and (bop[1] not in BAD_NEEDS_REL or rel) and (bop[1] != "null" or nonnull) and (bop[1] != "oversize" or not rel))
     if k in ("fetchmany", "arraysize", "observe") and len(bop) != 2:
         return False
     if k == "arraysize":
@@ -900,8 +979,9 @@ def valid_case(c):
             return False
     else:
         return False
-    rel = k == "relation"
-    regs = {MAIN: {"lazy": k in LAZY_KINDS, "parent": None, "frozen": False}}
+    rel = src_rel(src)
+    nonnull = bool(src.get("nonnull")) and (k == "relation" or (k in ONESHOT_KINDS and bool(src.get("rel"))))
+    regs = {MAIN: {"lazy": k in LAZY_KINDS, "parent": None, "frozen": False, "rel": rel, "nonnull": nonnull}}
     for op in c["ops"]:
         if not isinstance(op, list) or not op:
             return False
@@ -912,13 +992,15 @@ def valid_case(c):
         if op[0] == "derive":
             if len(op) < 4 or not isinstance(reg, str) or reg not in regs or regs[reg]["lazy"] or not _valid_derive(bop, regs, w):
                 return False
-            regs[bop[1]] = {"lazy": bop[3] in DERIVE_LAZY, "parent": reg, "frozen": False}
+            # a frame derived by select has its own schema: a list of names, whatever the parent had
+            keeps = bop[3] != "select"
+            regs[bop[1]] = {"lazy": bop[3] in DERIVE_LAZY, "parent": reg, "frozen": False, "rel": regs[reg]["rel"] and keeps,
+                            "nonnull": regs[reg]["nonnull"] and keeps}
             continue
         st = regs[reg]
         if st["frozen"]:
             return False
-        # a frame derived by select has its own schema: a list of names, whatever the parent had
-        if not _valid_base(bop, st["lazy"], w, rel):
+        if not _valid_base(bop, st["lazy"], w, st["rel"], st["nonnull"]):
             return False
         if bop[0] in ("append", "append-bad"):
             for r in regs.values():
@@ -977,9 +1059,15 @@ def _features(ctx, c, order, outs=()):
     for o in outs:
         if o[0] == "raised-anyway":
             ctx.hit("observer-raises-on-these-values-whatever-the-cursor-did:" + o[2])
+    for r in order:
+        for note in r.notes:
+            ctx.hit(note)
+    lazy_regs = {r.name for r in order if r.lazy}
     for op in c["ops"]:
         reg, bop = target(op)
         ctx.hit("op:" + bop[0] + ("" if reg == MAIN else ":on-derived"))
+        if bop[0] == "append" and reg in lazy_regs:
+            ctx.hit("append:on-a-lazily-backed-frame")
         if bop[0] == "observe":
             ctx.hit("obs:" + observers().get(bop[1])[0])
         if bop[0] == "append-bad":
@@ -1012,8 +1100,12 @@ def evaluate(ctx, cases):
         clause, order = judge(c, outs, finals)
         ran.append((outs, finals, clause, order))
     unbuilt = [bool(r[0]) and r[0][0][0] == "unbuildable" for r in ran]
-    mouts = ctx.model.batch([model_line(dict(c, ops=[["fetchone"]]) if u else c, r[3]) for c, r, u in zip(cases, ran, unbuilt)])
-    for c, (outs, finals, clause, order), mo, u in zip(cases, ran, mouts, unbuilt):
+    lines = [model_line(dict(c, ops=[["fetchone"]]), r[3]) if u else model_line(c, r[3], r[0]) for c, r, u in zip(cases, ran, unbuilt)]
+    # a frame that has come to hold a record of many MiB (only a tree that keeps a row it rejected does that) is judged by
+    # the oracle alone: the line is not sent to the model
+    toobig = [len(ln) > 1000000 for ln in lines]
+    mouts = ctx.model.batch(["C04 frame " + wire.line(100, ["eager", [], False, False], [["fetchone"]]) if big else ln for ln, big in zip(lines, toobig)])
+    for c, (outs, finals, clause, order), mo, u, big in zip(cases, ran, mouts, unbuilt, toobig):
         rows = layout(c)[0]
         if u:
             ctx.case(c, False)
@@ -1025,7 +1117,10 @@ def evaluate(ctx, cases):
         if not mo.startswith("ok "):
             raise InfraError("model rejected case %r: %r" % (c, mo))
         m = wire.dec_all(mo[3:])
-        if has_registers(c):
+        if big:
+            ctx.hit("model:not-asked (a record of many MiB in the frame)")
+            m, differs = [None] * 6, False
+        elif has_registers(c):
             # m = [outs, stores of the frames, their liveness, every derivation owns its rows]
             mouts_, mstores, strict = m[0], m[1], m[3]
             if not strict:
@@ -1226,12 +1321,64 @@ def exhaustive_frames(ctx, depth, nmax, wide):
                        "ops": [["derive", "c", MAIN] + v] + [op if s == MAIN else ["on", s, op] for s, op in h]}
 
 
+def exhaustive_rejects(ctx, depth, nmax):
+    """Operations that fail part-way, interleaved with fetches: every history of depth 1..depth over {fetchone, fetchall,
+    fetchmany(1), an append that completes, every kind of rejected append the frame has} with at least one append in it
+    — so rejected appends before the first fetch, between fetches and after exhaustion — on materialised frames (list,
+    RelationSchema, rows held in a tuple) and lazily backed ones (generator, generator under a RelationSchema, from_arrow
+    with an empty table, a filter view)."""
+    fetches = [["fetchone"], ["fetchall"], ["fetchmany", 1]]
+    for n in range(nmax + 1):
+        rows = [[i] for i in range(n)]
+        frames = [({"kind": "rows", "rows": rows}, False, False), ({"kind": "rows", "rows": rows, "container": "tuple"}, False, False),
+                  ({"kind": "relation", "rows": rows, "nonnull": True}, True, True),
+                  ({"kind": "gen", "rows": rows}, False, False), ({"kind": "gen", "rows": rows, "rel": True, "nonnull": True}, True, True),
+                  ({"kind": "arrow", "tables": [rows[:1], [], rows[1:]], "how": "list"}, True, False),
+                  ({"kind": "filter", "rows": rows + [[7]], "mask": [True] * n + [False]}, False, False)]
+        for src, rel, nonnull in frames:
+            alpha = fetches + [["append", [9]]] + [["append-bad", k] for k in bad_kinds(1, rel, nonnull)]
+            for h in _histories(alpha, depth):
+                if any(op[0] in ("append", "append-bad") for op in h):
+                    yield {"src": src, "width": 1, "ops": h}
+    # a record over the 16 MiB a row may take (one history per position: the record is large)
+    for src in ({"kind": "rows", "rows": [[0], [1]]}, {"kind": "gen", "rows": [[0], [1]]}, {"kind": "iter", "rows": [[0], [1]]}):
+        for pre in ([], [["fetchone"]], [["fetchall"]]):
+            yield {"src": src, "width": 1, "ops": pre + [["append-bad", "oversize"], ["fetchone"], ["fetchall"], ["fetchmany", None]]}
+    # two columns, the other kinds of lazily backed frame, and a rejected append on a frame derived from the one under test
+    for kind in ("gen", "iter", "map", "chain"):
+        for rel in (False, True):
+            src = {"kind": kind, "rows": [[1, 2], [3, 4], [5, 6]]}
+            if rel:
+                src.update(rel=True, nonnull=True)
+            for bad in bad_kinds(2, rel, rel):
+                for pre in ([], [["fetchone"]], [["fetchmany", 2]], [["fetchall"]]):
+                    yield {"src": src, "width": 2, "ops": pre + [["append-bad", bad], ["fetchone"], ["fetchmany", None], ["fetchall"], ["fetchone"]]}
+    for view in (["select", ["a"]], ["filter", [True, False, True]], ["take", [0, 2]]):
+        for bad in ("scalar", "unsizable"):
+            for pre in ([], [["on", "c", ["fetchone"]]], [["on", "c", ["fetchall"]]]):
+                yield {"src": {"kind": "rows", "rows": [[1], [2], [3]]}, "width": 1,
+                       "ops": [["fetchone"], ["derive", "c", MAIN] + view] + pre + [["on", "c", ["append-bad", bad]], ["on", "c", ["fetchone"]],
+                                                                                   ["fetchone"], ["on", "c", ["fetchall"]], ["fetchall"]]}
+
+
 ODD_VALUES = [None, "é", 2**70, 1.5, "", -1, 0, 0.0, False, float("nan"), -0.0, [1], [], {"k": 1}, b""]
 FALSY = [0, "", None, 0.0, False]
 BIG_K = [2 ** 31 - 1, 2 ** 31, 2 ** 63, 2 ** 64 + 1, 10 ** 9]
 
 
-def random_ops(ctx, n, width, lazy, rel=False):
+def bad_kinds(width, rel, nonnull=False, oversize=False):
+    """The rejected appends a frame of this shape has."""
+    ks = ["scalar"]
+    if width:
+        ks.append("unsizable")
+        if rel:
+            ks += ["invalid", "missing", "excess"] + (["null"] if nonnull else [])
+        elif oversize:
+            ks.append("oversize")
+    return ks
+
+
+def random_ops(ctx, n, width, lazy, rel=False, nonnull=False):
     rng = ctx.rng
     obs = observers()
     eager_labels = obs.eager_labels if width else obs.width0_labels
@@ -1251,10 +1398,10 @@ def random_ops(ctx, n, width, lazy, rel=False):
             labels = pure_labels if lazy else eager_labels
             if labels:
                 ops.append(["observe", rng.choice(labels)])
-        elif not lazy:
-            if rng.random() < 0.25:
-                kinds = ["scalar"] + (["unsizable"] if width else []) + (["invalid"] if width and rel else [])
-                ops.append(["append-bad", rng.choice(kinds)])
+        elif not lazy or rng.random() < 0.7:
+            # (a lazily backed frame too: an append is not a read, and one that is rejected must not cost it its rows)
+            if rng.random() < (0.6 if lazy else 0.3):
+                ops.append(["append-bad", rng.choice(bad_kinds(width, rel, nonnull, oversize=rng.random() < 0.02))])
             else:
                 ops.append(["append", [rng.randint(-3, 3) for _ in range(width)]])
     return ops or [["fetchone"]]
@@ -1285,7 +1432,8 @@ def with_frames(ctx, case):
     w = case["width"]
     rel = case["src"]["kind"] == "relation"
     n = len(case["src"]["rows"])
-    regs = {MAIN: {"lazy": False, "frozen": False, "parent": None}}
+    nonnull = rel and bool(case["src"].get("nonnull"))
+    regs = {MAIN: {"lazy": False, "frozen": False, "parent": None, "rel": rel}}
     ops = []
     obs = observers()
     labels = obs.eager_labels if w else obs.width0_labels
@@ -1301,7 +1449,7 @@ def with_frames(ctx, case):
             d = random_derivation(rng, n, eager, w)
             name = "c%d" % len(regs)
             ops.append(["derive", name, parent] + d)
-            regs[name] = {"lazy": d[0] in DERIVE_LAZY, "frozen": False, "parent": parent}
+            regs[name] = {"lazy": d[0] in DERIVE_LAZY, "frozen": False, "parent": parent, "rel": regs[parent]["rel"] and d[0] != "select"}
             continue
         reg = rng.choice(live)
         lazy = regs[reg]["lazy"]
@@ -1318,9 +1466,9 @@ def with_frames(ctx, case):
             bop = ["observe", rng.choice(pool)]
         elif r < 0.84:
             bop = ["arraysize", rng.choice([0, 1, 2, 100])]
-        elif not lazy:
-            if rng.random() < 0.15:
-                bop = ["append-bad", rng.choice(["scalar"] + (["unsizable"] if w else []) + (["invalid"] if w and rel else []))]
+        elif not lazy or rng.random() < 0.5:
+            if rng.random() < (0.5 if lazy else 0.15):
+                bop = ["append-bad", rng.choice(bad_kinds(w, regs[reg]["rel"], nonnull and regs[reg]["rel"]))]
             else:
                 bop = ["append", [rng.randint(-3, 3) for _ in range(w)]]
             for st in regs.values():
@@ -1368,7 +1516,9 @@ def random_case(ctx, lazy=False):
         src = {"kind": kind, "rows": rows}
         if rng.random() < 0.35:
             src["container"] = rng.choice(DICT_CONTAINERS if kind == "dicts" else CONTAINERS)
-        c = {"src": src, "width": width, "ops": random_ops(ctx, n, width, False, kind == "relation")}
+        if kind == "relation" and width and rng.random() < 0.5:
+            src["nonnull"] = True
+        c = {"src": src, "width": width, "ops": random_ops(ctx, n, width, False, kind == "relation", bool(src.get("nonnull")))}
         if rng.random() < 0.35:
             c = with_frames(ctx, c)
         return c
@@ -1388,6 +1538,10 @@ def random_case(ctx, lazy=False):
         vals = (lambda: rng.choice(ODD_VALUES)) if rng.random() < 0.25 else (lambda: rng.randint(-3, 3))
         rows = [[vals() for _ in range(width)] for _ in range(n0)]
         src = {"kind": kind, "rows": rows}
+        if kind in ONESHOT_KINDS and rng.random() < 0.3:
+            src["rel"] = True
+            if width and rng.random() < 0.5:
+                src["nonnull"] = True
         if kind in ("select", "filter", "take") and rng.random() < 0.3:
             src["parent"] = "gen"
         if kind == "select":
@@ -1400,7 +1554,7 @@ def random_case(ctx, lazy=False):
             src["indexes"] = rng.choice([[], list(range(n0)), [0], [n0 - 1, 0, 0], [n0, -1]]) if rng.random() < 0.4 else [rng.randint(-1, n0 + 1) for _ in range(rng.randint(0, n0 + 2))]
         n = n0
     c = {"src": src, "width": width, "ops": None}
-    c["ops"] = random_ops(ctx, len(layout(c)[0]), width, True)
+    c["ops"] = random_ops(ctx, len(layout(c)[0]), width, True, src_rel(src), bool(src.get("nonnull")) and src_rel(src) and kind != "arrow")
     return c
 
 
@@ -1492,6 +1646,18 @@ def run(ctx):
         flush()
     flush(True)
     n_frames = total - n_eager - n_lazy - n_shapes
+    rdepth, rnmax = ctx.scale((3, 2), (3, 3))
+    for c in exhaustive_rejects(ctx, rdepth, rnmax):
+        batch.append(c)
+        flush()
+    flush(True)
+    n_rejects = total - n_eager - n_lazy - n_shapes - n_frames
+    ctx.note("exhaustive_scope_rejected_appends", "operations that fail part-way: all histories of depth 1..%d over {fetchone, fetchall, fetchmany(1), "
+             "append, every kind of rejected append of the frame (not a mapping, unsizable value; under a RelationSchema also wrong type, "
+             "missing column, excess column, null in a non-nullable column)} containing an append, on frames of 0..%d rows: list, tuple, "
+             "RelationSchema (materialised); generator, generator under a RelationSchema, from_arrow with an empty table, filter view (lazily "
+             "backed); plus oversize records, two columns, iter / map / chain, and rejected appends on a lazy view of the frame (%d histories)"
+             % (rdepth, rnmax, n_rejects))
     ctx.exhaustive = False
     ctx.note("exhaustive_scope", "materialised: all histories of depth 1..%d (1..4 on 3 rows) over %d operations on frames of 0..%d rows (%d histories); "
              "lazily backed: all cursor-only histories of depth 1..%d over %d operations on from_arrow frames over every list of 1..%d tables "
